@@ -2,7 +2,9 @@
 // (fast build, -Wl,--wrap), guarded input copies, canaried/guarded output buffers.
 #ifndef VF_MEM_HPP
 #define VF_MEM_HPP 1
+extern "C" {
 #include <uriparser/UriBase.h>
+}
 #include <unordered_map>
 #include "vf_common.hpp"
 
